@@ -8,17 +8,19 @@ SUITE = "world"
 LEAN_TARGETS = ["TypedpyModel.Props.C15", "TypedpyModel.Audit.C15"]
 AUDIT = "C15"
 THEOREMS = ["Typedpy.C15." + t for t in (
-    "frame", "frame_alone", "use_changes_no_view", "use_preserves_coherence", "define_preserves_coherence",
-    "define_changes_no_other_class", "accept_decision_frame", "safe_config_of_safe_tables", "C15_of_safe_config",
-    "frame_safe_tables", "tables_ok", "pinned_config", "config_no_worse", "current_caches_by_id", "C15_partial", "registry_counterexample",
-    "required_counterexample", "C15_statement_fails_with_findings", "counterexamples_are_excluded", "frame_example")]
+    "frame", "frame_alone", "use_changes_no_view", "use_preserves_coherence",
+    "define_preserves_coherence", "define_changes_no_other_class", "accept_decision_frame", "safe_config_of_safe_tables",
+    "C15_of_safe_config", "frame_safe_tables", "tables_safe", "tables_ok",
+    "C15_today", "excluded_today", "use_changes_no_view_today", "pinned_config",
+    "config_no_worse", "name_keyed_registry_breaks_frame", "inplace_required_breaks_frame", "registry_fixed_example",
+    "required_fixed_example", "C15_statement_fails_with_findings", "counterexamples_are_excluded", "frame_example")]
 RULE = ("histories of 2-5 (thorough: 2-7) class definitions — roots, subclasses, Omit/Pick/Partial-derived classes, "
         "FastSerializable classes, same-named classes, fields that implicitly wrap 1-4 user classes of which several "
         "share a __name__ (Field[U], Array[U]), ClassReference fields, 18 kinds of self-contained typedpy fields incl. "
         "two field-factory functions shared by all classes and inline StructureReference — interleaved with 2-8 "
         "(thorough: 2-25) uses (construct, serialize, deserialize, structure_to_schema, create_serializer, trusted "
-        "deserialization) and toggles/restores of 3 global defaults; plus 15 directed histories around the known "
-        "findings.  Each history runs against the real typedpy in a process forked from a pristine interpreter; "
+        "deserialization) and toggles/restores of 3 global defaults; plus 15 directed histories around the two "
+        "repaired defects (name-keyed wrapper registry, in-place _required write).  Each history runs against the real typedpy in a process forked from a pristine interpreter; "
         "every class is then re-defined ALONE (only the definitions it depends on + the default toggles) in another "
         "pristine process; behaviour fingerprints (accept/reject vector with stored values over <= 60 probe argument "
         "sets incl. instances of every user class, serialize/compact/Serializer/.serialize(), deserialize incl. missing "
@@ -33,8 +35,9 @@ ASSUMPTIONS = [
     "sharing one Field instance between classes is excluded (documented as unsupported)",
     "a class defined while a global default is toggled keeps what was captured at definition; 'alone' replays the "
     "same toggles around the same definitions",
-    "the model does not follow ClassReference fields through structure_to_schema / create_serializer: the generator "
-    "issues neither for classes with such fields, and FastSerializable classes get no ClassReference fields",
+    "the model does not follow ClassReference fields through create_serializer / nested serialization (coherent cache "
+    "fills and serializer installs on the referenced classes): FastSerializable classes get no ClassReference fields "
+    "and ClassReference fields point at non-FastSerializable classes only",
     "uniqueness features (@unique, off by default) are history-dependent by design and outside the claim",
     "PYTHONHASHSEED=0",
 ]
